@@ -136,7 +136,7 @@ func sizeClass(s int64) string {
 }
 
 func monitorBigFaults(c *core.Ctx) {
-	tables := c.N(4, 24)
+	tables := c.N(6, 36)
 	// job counts: the first four cover "just above 64 KiB", "between 64 and 128 KiB .. above", "a few chunks", "many chunks"
 	base := []int{420, 800, 1500, 3000}
 	core.ParallelFor(tables, 4, func(ti int) {
@@ -448,8 +448,9 @@ func monitorBigFaults(c *core.Ctx) {
 					step = "sync"
 				}
 				sig := fmt.Sprintf("file.offsetDB.save: offsets file replaced after failed %s (%s)", step, cls)
-				if step == "sync" {
-					sig = "file.offsetDB.save: offsets file replaced after failed sync"
+				if step == "sync" || cls == "the only write" {
+					// same mechanism as in the small-table matrix: same signature
+					sig = "file.offsetDB.save: offsets file replaced after failed " + step
 				}
 				violOnce(c, sig,
 					fmt.Sprintf("fault %s, write step %d of %d, RLIMIT_FSIZE %d, snapshot of %d bytes / %d jobs (%s): the save could not write the whole snapshot, yet the offsets file is now %s instead of the previous snapshot. %s",
